@@ -105,7 +105,6 @@ class Number {
 inline Number parseNumber(const char* s) {
   using traits = FloatTraits<JsonFloat>;
   using mantissa_t = largest_type<traits::mantissa_type, JsonUInt>;
-  using exponent_t = traits::exponent_type;
 
   ARDUINOJSON_ASSERT(s != 0);
 
@@ -136,7 +135,7 @@ inline Number parseNumber(const char* s) {
     return Number();
 
   mantissa_t mantissa = 0;
-  exponent_t exponent_offset = 0;
+  int32_t exponent_offset = 0;
   const mantissa_t maxUint = JsonUInt(-1);
 
   while (isdigit(*s)) {
@@ -184,7 +183,7 @@ inline Number parseNumber(const char* s) {
     }
   }
 
-  int exponent = 0;
+  int32_t exponent = 0;
   if (*s == 'e' || *s == 'E') {
     s++;
     bool negative_exponent = false;
@@ -196,13 +195,8 @@ inline Number parseNumber(const char* s) {
     }
 
     while (isdigit(*s)) {
-      exponent = exponent * 10 + (*s - '0');
-      if (exponent + exponent_offset > traits::exponent_max) {
-        if (negative_exponent)
-          return Number(is_negative ? -0.0f : 0.0f);
-        else
-          return Number(is_negative ? -traits::inf() : traits::inf());
-      }
+      if (exponent < 100000000)  // saturate to avoid an integer overflow
+        exponent = exponent * 10 + (*s - '0');
       s++;
     }
     if (negative_exponent)
@@ -213,6 +207,15 @@ inline Number parseNumber(const char* s) {
   // we should be at the end of the string, otherwise it's an error
   if (*s != '\0')
     return Number();
+
+  // mantissa * 10^exponent is null or too small to be represented
+  if (mantissa == 0 ||
+      exponent < -(traits::exponent_max + traits::mantissa_bits))
+    return Number(is_negative ? -0.0f : 0.0f);
+
+  // ... or too large
+  if (exponent > traits::exponent_max)
+    return Number(is_negative ? -traits::inf() : traits::inf());
 
 #if ARDUINOJSON_USE_DOUBLE
   bool isDouble = exponent < -FloatTraits<float>::exponent_max ||
